@@ -610,8 +610,8 @@ Lemma ex_final :
   visible (run_store (boot []) ex_il []) PTarget s_k1 = Some (s_aa ++ ch_comma :: s_b) /\
   visible (run_store (boot []) ex_il []) PCas s_aa = Some s_aa /\
   visible (run_store (boot []) (firstn 20 ex_il) []) PTarget s_k1 = None /\
-  length ex_il = 43.
-Proof. vm_compute. Show. Abort.
+  length ex_il = 37.
+Proof. vm_compute. repeat split. Qed.
 
 (* ================================================================== Layer 2 *)
 Lemma loc_set_loc_same w m f : loc (set_loc w m f) m = f.
@@ -641,12 +641,13 @@ Theorem get_faults_degrade w m p k :
 Proof.
   unfold w_get. destruct (lookup (loc w m) p k) as [b|] eqn:El.
   - split; [reflexivity|]. split; [left; reflexivity | exact El].
-  - unfold r_get, next_rf. destruct (hd FNone (rfl w)); cbn [rem locA locB];
+  - unfold r_get, next_rf.
+    destruct (hd FNone (rfl w)); cbn -[upd set_loc loc lookup];
       try (split; [reflexivity | destruct m; reflexivity]).
-    destruct (lookup (rem w) p k) as [b|] eqn:Er.
-    + unfold fs_set, next_lf. destruct (hd LOk (lfl w)).
+    destruct (lookup (rem w) p k) as [b|] eqn:Er; cbn -[upd set_loc loc lookup].
+    + unfold fs_set, next_lf. destruct (hd LOk (lfl w)); cbn -[upd set_loc loc lookup].
       * rewrite rem_set_loc. split; [reflexivity|]. split.
-        { right. split; [destruct m; exact El | reflexivity]. }
+        { right. split; [reflexivity | reflexivity]. }
         { rewrite loc_set_loc_same. apply lookup_upd_same. }
       * split; [reflexivity | destruct m; reflexivity].
       * split; [reflexivity | destruct m; reflexivity].
@@ -671,13 +672,13 @@ Lemma get_fill_B w p k b :
              lookup (locB w') p k = Some b /\
              (forall p' k' b', lookup (locB w) p' k' = Some b' -> lookup (locB w') p' k' = Some b').
 Proof.
-  intros Hag Hr Hl Hrem. unfold w_get. simpl loc.
+  intros Hag Hr Hl Hrem. unfold w_get. cbn [loc].
   destruct (lookup (locB w) p k) as [b0|] eqn:El.
   - pose proof (Hag p k b0 El) as E. rewrite Hrem in E. inversion E; subst b0.
     exists w. repeat split; auto.
-  - unfold r_get, next_rf. rewrite Hr. simpl. rewrite Hrem.
-    unfold fs_set, next_lf. simpl. rewrite Hl. simpl.
-    eexists. split; [reflexivity|]. simpl. repeat split; auto.
+  - unfold r_get, next_rf. rewrite Hr. cbn -[upd lookup]. rewrite Hrem.
+    unfold fs_set, next_lf. cbn -[upd lookup]. rewrite Hl. cbn -[upd lookup].
+    eexists. split; [reflexivity|]. unfold agrees. cbn -[upd lookup]. repeat split; auto.
     + intros p' k' b'. rewrite lookup_upd. destruct (pk_eqb p' k' (p, k)) eqn:E.
       * apply pk_eqb_eq in E as [-> ->]. intro Eb; inversion Eb; subst. exact Hrem.
       * apply Hag.
@@ -757,3 +758,193 @@ Section Restore.
     exists b. split; [reflexivity | exact I3].
   Qed.
 End Restore.
+
+(* ---- no dangling references after a publish through the wrapper *)
+Lemma lookup_In m : forall p k b, lookup m p k = Some b -> In ((p, k), b) m.
+Proof.
+  induction m as [|[[p' k'] b'] m IH]; intros p k b Hl; simpl in Hl; [discriminate|].
+  destruct (pk_eqb p k (p', k')) eqn:E.
+  - apply pk_eqb_eq in E as [-> ->]. inversion Hl; subst. left; reflexivity.
+  - right. apply IH; exact Hl.
+Qed.
+
+Definition sub_inv (w : world) (m : machine) : Prop :=
+  (forall d, lookup (loc w m) PCas d <> None -> lookup (rem w) PCas d <> None) /\
+  (forall d, In d (wmemo w m Wrapped) -> lookup (rem w) PCas d <> None).
+
+Lemma guard_sub_inv w m : local_sub_remote w m = true -> wmemo w m Wrapped = [] -> sub_inv w m.
+Proof.
+  intros Hg Hm. split.
+  - intros d Hd. destruct (lookup (loc w m) PCas d) as [b|] eqn:E; [|congruence].
+    apply lookup_In in E. unfold local_sub_remote in Hg. rewrite forallb_forall in Hg.
+    specialize (Hg _ E). unfold cas_entry_mirrored in Hg. simpl in Hg.
+    destruct (lookup (rem w) PCas d); [discriminate | discriminate].
+  - rewrite Hm. intros d [].
+Qed.
+
+Lemma w_exists_spec w m p k :
+  locA (snd (w_exists w m p k)) = locA w /\ locB (snd (w_exists w m p k)) = locB w /\
+  rem (snd (w_exists w m p k)) = rem w /\ wmemo (snd (w_exists w m p k)) = wmemo w /\
+  (fst (w_exists w m p k) = RTrue -> lookup (loc w m) p k <> None \/ lookup (rem w) p k <> None).
+Proof.
+  unfold w_exists. destruct (lookup (loc w m) p k) as [b|] eqn:El; cbn [is_some].
+  - cbn [fst snd]. repeat split; auto. intros _. left; discriminate.
+  - unfold r_head, next_rf. destruct (hd FNone (rfl w)); cbn -[lookup]; repeat split; auto; try discriminate.
+    destruct (lookup (rem w) p k); cbn [is_some]; [intros _; right; discriminate | discriminate].
+Qed.
+
+Lemma w_set_spec w m p k b :
+  wmemo (snd (w_set w m p k b)) = wmemo w /\
+  (fst (w_set w m p k b) = ROk ->
+   loc (snd (w_set w m p k b)) m = upd (loc w m) p k b /\ rem (snd (w_set w m p k b)) = upd (rem w) p k b).
+Proof.
+  unfold w_set, next_lf, next_rf. cbn -[upd lookup null].
+  destruct (hd LOk (lfl w)); destruct (hd FNone (rfl w)); destruct (null b); destruct m;
+    cbn -[upd lookup]; (split; [reflexivity|]); try discriminate;
+    intros _; split; reflexivity.
+Qed.
+
+Lemma machine_eqb_refl m : machine_eqb m m = true.
+Proof. destruct m; reflexivity. Qed.
+
+Lemma add_wmemo_spec w m d :
+  wmemo (add_wmemo w m Wrapped d) m Wrapped = d :: wmemo w m Wrapped /\
+  loc (add_wmemo w m Wrapped d) m = loc w m /\ rem (add_wmemo w m Wrapped d) = rem w.
+Proof. cbn [wmemo add_wmemo]. rewrite machine_eqb_refl. destruct m; repeat split; reflexivity. Qed.
+
+Lemma cas_write_ok w m d b w' :
+  sub_inv w m -> cas_write w m Wrapped d b = (ROk, w') ->
+  sub_inv w' m /\ lookup (rem w') PCas d <> None /\
+  (forall d', lookup (rem w) PCas d' <> None -> lookup (rem w') PCas d' <> None).
+Proof.
+  intros [S1 S2] Hc. unfold cas_write, cas_exists in Hc.
+  destruct (str_in d (wmemo w m Wrapped)) eqn:Em.
+  - inversion Hc; subst w'. apply str_in_spec in Em. repeat split; auto.
+  - cbn [b_exists b_set] in Hc.
+    pose proof (w_exists_spec w m PCas d) as (EA & EB & ER & EM & ET).
+    destruct (w_exists w m PCas d) as [r w1]. cbn [fst snd] in *.
+    assert (Eloc : loc w1 m = loc w m) by (destruct m; simpl; congruence).
+    assert (Hset : forall w2 r2, w_set w1 m PCas d b = (r2, w2) ->
+                   (match r2 with ROk => (ROk, add_wmemo w2 m Wrapped d) | o => (o, w2) end) = (ROk, w') ->
+                   sub_inv w' m /\ lookup (rem w') PCas d <> None /\
+                   (forall d', lookup (rem w) PCas d' <> None -> lookup (rem w') PCas d' <> None)).
+    { intros w2 r2 Es Hres. pose proof (w_set_spec w1 m PCas d b) as [WM WS]. rewrite Es in WM, WS.
+      cbn [fst snd] in *. destruct r2; try discriminate. inversion Hres; subst w'.
+      destruct (WS eq_refl) as [WL WR].
+      destruct (add_wmemo_spec w2 m d) as (AM & AL & AR).
+      assert (Hmono : forall d', lookup (rem w) PCas d' <> None -> lookup (rem (add_wmemo w2 m Wrapped d)) PCas d' <> None).
+      { intros d' Hd. rewrite AR, WR, lookup_upd, ER. destruct (pk_eqb PCas d' (PCas, d)); [discriminate | exact Hd]. }
+      assert (Hd : lookup (rem (add_wmemo w2 m Wrapped d)) PCas d <> None).
+      { rewrite AR, WR, lookup_upd_same. discriminate. }
+      split; [split|split; [exact Hd | exact Hmono]].
+      - intros d'. rewrite AL, WL, Eloc, lookup_upd. destruct (pk_eqb PCas d' (PCas, d)) eqn:E.
+        + apply pk_eqb_eq in E as [_ ->]. intros _. exact Hd.
+        + intro Hl. apply Hmono. apply S1. exact Hl.
+      - intros d'. rewrite AM, WM, EM. intros [<-|Hin]; [exact Hd | apply Hmono, S2, Hin]. }
+    destruct r; try (destruct (w_set w1 m PCas d b) as [r2 w2] eqn:Es; exact (Hset w2 r2 eq_refl Hc)).
+    (* Exists answered true: the write is skipped *)
+    inversion Hc; subst w'. destruct (add_wmemo_spec w1 m d) as (AM & AL & AR).
+    assert (Hd : lookup (rem w) PCas d <> None).
+    { destruct (ET eq_refl) as [Hl|Hr]; [apply S1; exact Hl | exact Hr]. }
+    split; [split|split].
+    + intros d'. rewrite AL, AR, Eloc, ER. apply S1.
+    + intros d'. rewrite AM, AR, EM, ER. intros [<-|Hin]; [exact Hd | apply S2; exact Hin].
+    + rewrite AR, ER. exact Hd.
+    + intros d'. rewrite AR, ER. auto.
+Qed.
+
+Section Dangling.
+  Variable refs : bytes -> list key.
+
+  (* the claim for one publish: a new process on machine m writes the blobs, then the result that
+     references them; if every call returns ok, the remote holds the result and every referenced blob *)
+  Definition no_dangling_at (w : world) (m : machine) (blobs : list (key * bytes)) (k : key) (r : bytes) : Prop :=
+    wmemo w m Wrapped = [] ->
+    (forall d, In d (refs r) -> In d (map fst blobs)) ->
+    forallb is_ok (fst (run_ops w (publish m blobs k r))) = true ->
+    lookup (rem (snd (run_ops w (publish m blobs k r)))) PTarget k = Some r /\
+    forall d, In d (refs r) -> lookup (rem (snd (run_ops w (publish m blobs k r)))) PCas d <> None.
+
+  Lemma publish_ok m k r blobs : forall w,
+    sub_inv w m ->
+    forallb is_ok (fst (run_ops w (publish m blobs k r))) = true ->
+    lookup (rem (snd (run_ops w (publish m blobs k r)))) PTarget k = Some r /\
+    (forall d, In d (map fst blobs) -> lookup (rem (snd (run_ops w (publish m blobs k r)))) PCas d <> None) /\
+    (forall d, lookup (rem w) PCas d <> None -> lookup (rem (snd (run_ops w (publish m blobs k r)))) PCas d <> None).
+  Proof.
+    unfold publish. induction blobs as [|[d b] blobs IH]; intros w HS Hok.
+    - cbn [map app run_ops do_op b_set] in *.
+      pose proof (w_set_spec w m PTarget k r) as [_ WS].
+      destruct (w_set w m PTarget k r) as [x w1]. cbn [fst snd forallb] in *.
+      destruct x; try discriminate. destruct (WS eq_refl) as [_ WR]. rewrite WR.
+      split; [apply lookup_upd_same|]. split; [intros d []|].
+      intros d Hd. rewrite lookup_upd_other; [exact Hd | left; discriminate].
+    - cbn [map app run_ops do_op fst snd] in *.
+      destruct (cas_write w m Wrapped d b) as [x w1] eqn:Ec.
+      destruct (run_ops w1 (map (fun e => Do m Wrapped (ACasWrite (fst e) (snd e))) blobs ++
+                            [Do m Wrapped (ASet PTarget k r)])) as [xs w2] eqn:Er.
+      cbn [fst snd forallb] in *. apply andb_true_iff in Hok as [Hx Hxs].
+      destruct x; try discriminate.
+      destruct (cas_write_ok w m d b w1 HS Ec) as (HS1 & Hd1 & Hmono1).
+      specialize (IH w1 HS1). rewrite Er in IH. cbn [fst snd] in IH.
+      destruct (IH Hxs) as (I1 & I2 & I3).
+      split; [exact I1|]. split.
+      + intros d' [<-|Hin]; [apply I3; exact Hd1 | apply I2; exact Hin].
+      + intros d' Hd'. apply I3, Hmono1, Hd'.
+  Qed.
+
+  Theorem no_dangling_guarded w m blobs k r :
+    local_sub_remote w m = true -> no_dangling_at w m blobs k r.
+  Proof.
+    intros Hg Hm Hrefs Hok.
+    destruct (publish_ok m k r blobs w (guard_sub_inv w m Hg Hm) Hok) as (I1 & I2 & _).
+    split; [exact I1|]. intros d Hd. apply I2, Hrefs, Hd.
+  Qed.
+End Dangling.
+
+(* the witness: the blob is in A's local cache (an earlier build without the remote), the remote is empty;
+   a result is "the digest it references" *)
+Definition wit_d : key := ["d"]%char.
+Definition wit_x : bytes := ["x"]%char.
+Definition wit_k : key := ["k"]%char.
+Definition wit_world : world := mkW [((PCas, wit_d), wit_x)] [] [] (fun _ _ => []) [] [].
+Definition wit_refs (r : bytes) : list key := [r].
+
+Theorem no_dangling_refuted :
+  exists w m blobs k r, ~ no_dangling_at wit_refs w m blobs k r.
+Proof.
+  exists wit_world, MA, [(wit_d, wit_x)], wit_k, wit_d. intro Hc.
+  assert (P1 : wmemo wit_world MA Wrapped = []) by reflexivity.
+  assert (P2 : forall d, In d (wit_refs wit_d) -> In d (map fst [(wit_d, wit_x)])) by (intros d Hd; exact Hd).
+  assert (P3 : forallb is_ok (fst (run_ops wit_world (publish MA [(wit_d, wit_x)] wit_k wit_d))) = true)
+    by (vm_compute; reflexivity).
+  destruct (Hc P1 P2 P3) as [_ Hd]. apply (Hd wit_d (or_introl eq_refl)). vm_compute. reflexivity.
+Qed.
+
+(* the same history seen as a trace: every call returns ok, the remote ends with the result and no blob *)
+Lemma refuted_trace :
+  map fst (run_trace wit_world (publish MA [(wit_d, wit_x)] wit_k wit_d)) = [ROk; ROk] /\
+  rem (snd (run_ops wit_world (publish MA [(wit_d, wit_x)] wit_k wit_d))) = [((PTarget, wit_k), wit_d)] /\
+  local_sub_remote wit_world MA = false.
+Proof. vm_compute. repeat split. Qed.
+
+(* non-vacuity of the guarded statement and of the restore theorem: a cold machine A publishes, B restores *)
+Lemma guarded_nonvacuous :
+  let w0 := empty_world [] [] in
+  let out := run_ops w0 (publish MA [(wit_d, wit_x)] wit_k wit_d) in
+  local_sub_remote w0 MA = true /\ forallb is_ok (fst out) = true /\
+  remote_complete wit_refs (snd out) [wit_k] /\ locB (snd out) = [] /\
+  fst (run_ops (snd out) (get_ops (restore_items wit_refs (snd out) [wit_k]))) = [RHit wit_d; RHit wit_x].
+Proof.
+  cbv zeta. split; [reflexivity|]. split; [vm_compute; reflexivity|]. split.
+  - intros k [<-|[]]. exists wit_d. split; [vm_compute; reflexivity|].
+    intros d [<-|[]]. vm_compute. discriminate.
+  - split; vm_compute; reflexivity.
+Qed.
+
+(* a fault example: B's first remote Get fails, the second one is answered "not found" *)
+Lemma degrade_example :
+  let w := mkW [] [] [((PCas, wit_d), wit_x)] (fun _ _ => []) [FFail; FNotFound] [] in
+  map fst (run_trace w [Do MB Wrapped (AGet PCas wit_d); Do MB Wrapped (AGet PCas wit_d); Do MB Wrapped (AGet PCas wit_d)])
+  = [RErr; RMiss; RHit wit_x].
+Proof. vm_compute. reflexivity. Qed.
